@@ -238,6 +238,12 @@ func genC12(t *rapid.T) (*C12Case, []string) {
 		var text string
 		if rapid.IntRange(0, 3).Draw(t, "stmtkit") == 0 {
 			sk := c11StmtKits()
+			for k := range sk {
+				// (these two fault inside a helper function, not on the line of the kit)
+				if strings.HasSuffix(k, "at-a-site") {
+					delete(sk, k)
+				}
+			}
 			name = rapid.SampledFrom(sortedKeys(sk)).Draw(t, "skit")
 			var parts []string
 			for _, st := range sk[name] {
